@@ -197,4 +197,11 @@ P['C14'] = dict(
     mismatch_meaning='the observed lifecycle of channels (attempts, back-offs, open/close events and causes, idle expiry) differs from the provider model proved to reconnect after every failure with at most one channel open',
 )
 
+P['C16'] = dict(
+    bin='scen', compare=cmp_scen,
+    rule='(1) heartbeats: a real Node over 1..3 scripted pipes, period 80..160 ms, random system type / autopilot type, six dialects (shipped minimal and common, custom with the standard heartbeat, without id 0, with a non-standard id 0, with a non-standard id 66,), no dialect, disabled: after 5.5 periods every pipe must hold only heartbeats with exactly the model\'s field values, or nothing when the model says off; count within [4,6], first heartbeat not before 0.6 period, gaps within [0.5,1.5] period (retried up to 3 times before TIMING is reported); (2) stream requests: histories of 5..44 frames (heartbeats from 3 systems x 2 components with autopilot 3/0/8/12, other messages, v1 and v2) over 1..3 channels, enable on/off, frequency 0/1/4/10/300/65535: per channel the decoded requests written (fields, order, sender ids) and the event sequence (stream-requested before the frame event) compared with the model; (3) thorough only: a 63 s real-time history crossing two cleaner ticks (re-request after >= 30 s, none before, cleaned entries). Non-trivial: heartbeats observed, or at least one request burst.',
+    assumptions=['tick spacing is the Go runtime ticker\'s; checked inside a tolerant bracket with retries', 'the 30 s rule is exercised in real time only in the thorough tier; the quick tier covers histories shorter than 30 s'],
+    mismatch_meaning='the heartbeats or stream requests observed on the real node (content, count of seven, addressing, events, absence when disabled or non-standard) differ from the model the C16 theorems are proved about',
+)
+
 KNOWN_MATCH = {'F12': match_f12}
